@@ -1,5 +1,388 @@
 package main
 
+// C01 legs.
+//   c01.server  alias of srv.script (robustness stream of checks/c01.py)
+//   c01.deep    deep-nesting witnesses: case = `<construct> <depth> <route>`; the text is generated HERE (a depth of a
+//               million would be megabytes of hex on the case line), the route runs in a fresh child process under an
+//               address-space cap (ulimit -v) and a watchdog. Answer: `ALIVE` (the process lived and answered every
+//               request), `CRASH stack-overflow` (Go fatal error, not recoverable), `CRASH oom`, `CRASH ...`, `TIMEOUT`.
+//   routes      parse   parser.CreateParser(text).BeginAnalyze() only
+//               ann     annotateparser.ParseCommentFragment(text) only (text = one `---@...` comment)
+//               scan    real server, file on disk at start-up (workspace scan + all checks), then a fence request
+//               open    real server, the file is created after start-up, then didOpen with the deep text (didOpen of a
+//                       file the server knows only replaces the cached text; of a file that is not on disk does nothing)
+//               change  real server, benign file on disk and in didOpen, didChange with the deep text
+//               hover / define / refs / complete / docsym / highlight
+//                       real server, deep text on disk and opened, then that request at `deepPos` (inside the deep
+//                       expression) - only useful below the depth that already kills the scan
+//               a route may carry its own watchdog: `scan@20` = 20 s instead of 150 s
+//   c01.deeptext  prints the generated text (hex) of `<construct> <depth>` (used by the check to feed the MODEL parser),
+//               `-` when it is longer than 3000 bytes
+
+import (
+	"bytes"
+	"fmt"
+	"io/ioutil"
+	"os"
+	"os/exec"
+	"path/filepath"
+	"strconv"
+	"strings"
+	"time"
+
+	"github.com/yinfei8/jrpc2/channel"
+	"luahelper-lsp/langserver"
+	"luahelper-lsp/langserver/check/annotation/annotateparser"
+	"luahelper-lsp/langserver/check/common"
+	"luahelper-lsp/langserver/check/compiler/lexer"
+	"luahelper-lsp/langserver/check/compiler/parser"
+	"luahelper-lsp/langserver/log"
+)
+
+// deepText builds the witness text of a nesting construct; line/col = a cursor position inside the deep expression
+func deepText(construct string, n int) (text string, line, col int, ok bool) {
+	rep := strings.Repeat
+	ok = true
+	switch construct {
+	// ---- recursion of the PARSER (and of everything that walks the AST afterwards)
+	case "paren": // a = ((((1))))          parseParensExp -> parseExp -> parseSubExp -> parseExp0 -> parsePrefixExp
+		text = "a = " + rep("(", n) + "1" + rep(")", n)
+	case "paren-open": // a = ((((          the reported witness: no closing half
+		text = "a = " + rep("(", n)
+	case "paren-name": // a = ((((b))))     parentheses that stay in the AST (ParensExp)
+		text = "a = " + rep("(", n) + "b" + rep(")", n)
+	case "table": // a = {{{{}}}}
+		text = "a = " + rep("{", n) + rep("}", n)
+	case "table-open":
+		text = "a = " + rep("{", n)
+	case "func": // a = function() return function() return ... end end
+		text = "a = " + rep("function() return ", n) + "1" + rep(" end", n)
+	case "funcstat": // function f() function f() ... end end
+		text = rep("function f() ", n) + rep("end ", n)
+	case "do":
+		text = rep("do ", n) + rep("end ", n)
+	case "do-open":
+		text = rep("do ", n)
+	case "while":
+		text = rep("while a do ", n) + rep("end ", n)
+	case "if":
+		text = rep("if a then ", n) + rep("end ", n)
+	case "else": // if a then else if a then else ...
+		text = rep("if a then else ", n) + rep("end ", n)
+	case "for":
+		text = rep("for i = 1, 2 do ", n) + rep("end ", n)
+	case "forin":
+		text = rep("for k in a do ", n) + rep("end ", n)
+	case "repeat":
+		text = rep("repeat ", n) + rep("until a ", n)
+	case "unm": // a = - - - - 1
+		text = "a = " + rep("- ", n) + "1"
+	case "not":
+		text = "a = " + rep("not ", n) + "b"
+	case "len":
+		text = "a = " + rep("#", n) + "b"
+	case "concat": // right associative: recursion
+		text = "a = " + rep("b .. ", n) + "b"
+	case "pow":
+		text = "a = " + rep("b ^ ", n) + "b"
+	case "index-nest": // a = b[b[b[1]]]
+		text = "a = " + rep("b[", n) + "1" + rep("]", n)
+	case "call-nest": // a = f(f(f()))
+		text = "a = " + rep("f(", n) + rep(")", n)
+	case "callstat-nest": // f(f(f()))
+		text = rep("f(", n) + rep(")", n)
+	case "field-nest": // a = {b={b={}}}
+		text = "a = " + rep("{b=", n) + "1" + rep("}", n)
+	// ---- loops of the parser that build a LEFT-DEEP AST (no parser recursion; the later passes recurse)
+	case "add": // a = 1 + 1 + 1 ...
+		text = "a = 1" + rep(" + 1", n)
+	case "and":
+		text = "a = b" + rep(" and b", n)
+	case "dot": // a = b.c.c.c
+		text = "a = b" + rep(".c", n)
+	case "dot-assign": // b.c.c.c = 1
+		text = "b" + rep(".c", n) + " = 1"
+	case "index": // a = b[1][1][1]
+		text = "a = b" + rep("[1]", n)
+	case "call": // f()()()
+		text = "f" + rep("()", n)
+	case "call-exp":
+		text = "a = f" + rep("()", n)
+	case "method": // a = b:c():c():c()
+		text = "a = b" + rep(":c()", n)
+	case "strcall": // f"" "" ""
+		text = "f" + rep(" ''", n)
+	case "funcname": // function a.b.b.b() end
+		text = "function a" + rep(".b", n) + "() end"
+	// ---- annotation types (annotate_parser_type.go)
+	case "ann-paren": // ---@type ((((a))))
+		text = "---@type " + rep("(", n) + "a" + rep(")", n) + "\nlocal v = nil"
+	case "ann-fun": // ---@type fun(a:fun(a:fun()))
+		text = "---@type " + rep("fun(a:", n) + "b" + rep(")", n) + "\nlocal v = nil"
+	case "ann-funret": // ---@type fun():fun():fun()
+		text = "---@type " + rep("fun():", n) + "b" + "\nlocal v = nil"
+	case "ann-table": // ---@type table<a, table<a, b>>
+		text = "---@type " + rep("table<a, ", n) + "b" + rep(">", n) + "\nlocal v = nil"
+	case "ann-array": // ---@type a[][][]     loop in the parser, deep ArrayType
+		text = "---@type a" + rep("[]", n) + "\nlocal v = nil"
+	case "ann-or": // ---@type a|a|a|a        loop, flat
+		text = "---@type a" + rep("|a", n) + "\nlocal v = nil"
+	default:
+		ok = false
+		if strings.HasPrefix(construct, "mix-") {
+			// pseudo-random mixture of the expression-level nesting constructs, determined by the number after mix-
+			k, err := strconv.Atoi(construct[4:])
+			if err != nil {
+				break
+			}
+			ok = true
+			pairs := [][2]string{{"(", ")"}, {"{", "}"}, {"f(", ")"}, {"b[", "]"}, {"{b=", "}"}, {"- ", ""}, {"not ", ""},
+				{"b .. ", ""}, {"b + ", ""}, {"function() return ", " end"}, {"{[", "]=1}"}, {"f{", "}"}, {"b.c(", ")"},
+				{"b:c(1, ", ")"}, {"{1, ", "}"}, {"b and ", ""}, {"2 ^ ", ""}, {"#", ""}}
+			x := uint32(k)*2654435761 + 12345
+			var open, closeR []string
+			for i := 0; i < n; i++ {
+				x = x*1664525 + 1013904223
+				p := pairs[int(x>>16)%len(pairs)]
+				open = append(open, p[0])
+				closeR = append(closeR, p[1])
+			}
+			var b strings.Builder
+			b.WriteString("a = ")
+			for _, o := range open {
+				b.WriteString(o)
+			}
+			b.WriteString("b")
+			for i := len(closeR) - 1; i >= 0; i-- {
+				b.WriteString(closeR[i])
+			}
+			text = b.String()
+		}
+	}
+	line, col = 0, len(text)/2
+	if strings.HasPrefix(construct, "ann-") {
+		line, col = 1, 6 // on `v`
+	}
+	if len(text) > 0 && col > 0 {
+		// move to an identifier-ish byte near the middle when there is one close by
+		for d := 0; d < 16 && col+d < len(text); d++ {
+			c := text[col+d]
+			if c >= 'a' && c <= 'z' {
+				col += d
+				break
+			}
+		}
+	}
+	return
+}
+
+var deepChecks = []string{"CheckSyntax", "CheckNoDefine", "CheckAfterDefine", "CheckLocalNoUse", "CheckTableDuplicateKey",
+	"CheckReferNoFile", "CheckAssignParamNum", "CheckLocalDefineParamNum", "CheckGotoLable", "CheckFuncParam",
+	"CheckImportModuleVar", "CheckIfNotVar", "CheckFunctionDuplicateParam", "CheckBinaryExpressionDuplicate",
+	"CheckErrorOrAlwaysTrue", "CheckErrorAndAlwaysFalse", "CheckNoUseAssign", "CheckAnnotateType", "CheckDuplicateIf",
+	"CheckSelfAssign", "CheckFloatEq", "CheckClassField", "CheckConstAssign", "CheckFuncParamType", "CheckFuncReturnType"}
+
+// deepServer drives the real server (same set-up as srv_script.go) along one route
+func deepServer(route, text string, line, col int) string {
+	log.InitLog(false)
+	root, err := ioutil.TempDir("", "lhdeep")
+	if err != nil {
+		return "TMPERR"
+	}
+	root, _ = filepath.EvalSymlinks(root)
+	defer os.RemoveAll(root)
+	file := filepath.Join(root, "a.lua")
+	disk := text
+	if route == "open" || route == "change" {
+		disk = "x = 1\n"
+	}
+	if route == "open" {
+		// a file the server has not seen at start-up (didOpen of a known file only replaces the cached text)
+		ioutil.WriteFile(filepath.Join(root, "b.lua"), []byte(disk), 0644)
+	} else {
+		ioutil.WriteFile(file, []byte(disk), 0644)
+	}
+	opts := map[string]interface{}{"client": "vsc", "LocalRun": true, "AllEnable": true}
+	for _, n := range deepChecks {
+		opts[n] = true
+	}
+	common.GlobalConfigDefautInit()
+	common.GConfig.IntialGlobalVar()
+	srv := langserver.CreateServer()
+	cch, sch := channel.Direct()
+	srv.Start(sch)
+	s := &scriptSrv{cch: cch, srv: srv, root: root, diags: map[string][]string{}, resp: make(chan []byte, 16)}
+	go s.reader()
+	if _, e := s.call("initialize", map[string]interface{}{"processId": nil, "rootPath": root, "rootUri": "file://" + root,
+		"capabilities": map[string]interface{}{}, "initializationOptions": opts}); e != "" {
+		return "INIT-" + e
+	}
+	s.notify("initialized", map[string]interface{}{})
+	uri := "file://" + file
+	td := map[string]interface{}{"uri": uri}
+	tdp := map[string]interface{}{"textDocument": td, "position": map[string]interface{}{"line": line, "character": col}}
+	fence := func() string {
+		_, e := s.call("textDocument/documentSymbol", map[string]interface{}{"textDocument": map[string]interface{}{"uri": "file://" + root + "/__fence__.lua"}})
+		return e
+	}
+	open := func(t string) {
+		s.notify("textDocument/didOpen", map[string]interface{}{"textDocument": map[string]interface{}{
+			"uri": uri, "languageId": "lua", "version": 1, "text": t}})
+	}
+	var e string
+	switch route {
+	case "scan":
+	case "open":
+		ioutil.WriteFile(file, []byte(text), 0644)
+		open(text)
+	case "change":
+		open(disk)
+		s.notify("textDocument/didChange", map[string]interface{}{
+			"textDocument":   map[string]interface{}{"uri": uri, "version": 2},
+			"contentChanges": []map[string]interface{}{{"text": text}}})
+	default:
+		open(text)
+		if e = fence(); e != "" {
+			return "FENCE-" + e
+		}
+		switch route {
+		case "hover":
+			_, e = s.call("textDocument/hover", tdp)
+		case "define":
+			_, e = s.call("textDocument/definition", tdp)
+		case "refs":
+			tdp["context"] = map[string]interface{}{"includeDeclaration": true}
+			_, e = s.call("textDocument/references", tdp)
+		case "highlight":
+			_, e = s.call("textDocument/documentHighlight", tdp)
+		case "complete":
+			_, e = s.call("textDocument/completion", tdp)
+		case "sighelp":
+			_, e = s.call("textDocument/signatureHelp", tdp)
+		case "docsym":
+			_, e = s.call("textDocument/documentSymbol", map[string]interface{}{"textDocument": td})
+		case "color":
+			_, e = s.call("textDocument/documentColor", map[string]interface{}{"textDocument": td})
+		default:
+			return "BADROUTE"
+		}
+		if e != "" && !strings.HasPrefix(e, "RPCERR") {
+			return "REQ-" + e
+		}
+	}
+	if e = fence(); e != "" {
+		return "FENCE-" + e
+	}
+	return "ALIVE"
+}
+
+func deepOne(line string) string {
+	f := strings.Fields(line)
+	if len(f) < 3 {
+		return "BADCASE"
+	}
+	if i := strings.Index(f[2], "@"); i >= 0 {
+		f[2] = f[2][:i]
+	}
+	n, err := strconv.Atoi(f[1])
+	if err != nil || n < 0 || n > 50000000 {
+		return "BADCASE"
+	}
+	text, l, c, ok := deepText(f[0], n)
+	if !ok {
+		return "BADCONSTRUCT"
+	}
+	switch f[2] {
+	case "parse":
+		p := parser.CreateParser([]byte(text), "a.lua")
+		p.BeginAnalyze()
+		return "ALIVE"
+	case "ann":
+		if i := strings.Index(text, "\n"); i >= 0 {
+			text = text[:i]
+		}
+		ci := &lexer.CommentInfo{HeadFlag: true, ShortFlag: true}
+		ci.LineVec = append(ci.LineVec, lexer.CommentLine{Str: strings.TrimPrefix(text, "--"), Line: 1, Col: 0})
+		annotateparser.ParseCommentFragment(ci)
+		return "ALIVE"
+	}
+	return deepServer(f[2], text, l, c)
+}
+
+// address-space cap of the child in KiB (the Go stack limit is 1e9 bytes; AST + copies of a multi-megabyte text fit)
+const deepCapKB = 6 * 1024 * 1024
+
 func init() {
 	register("c01.server", func(line string) string { return legs["srv.script"](line) })
+	register("c01.deep1", deepOne)
+	register("c01.deeptext", func(line string) string {
+		f := strings.Fields(line)
+		if len(f) < 2 {
+			return "BADCASE"
+		}
+		n, _ := strconv.Atoi(f[1])
+		text, _, _, ok := deepText(f[0], n)
+		if !ok {
+			return "BADCONSTRUCT"
+		}
+		if len(text) > 3000 {
+			return "-" // too long for the case line: the model side then relies on its totality theorem
+		}
+		return hs(text)
+	})
+	register("c01.deep", func(line string) string {
+		// watchdog: 150 s, or `<route>@<seconds>` (witnesses of the polynomial-time finding: hours of work are cut short)
+		tmo := 150 * time.Second
+		if f := strings.Fields(line); len(f) >= 3 {
+			if i := strings.Index(f[2], "@"); i >= 0 {
+				if sec, err := strconv.Atoi(f[2][i+1:]); err == nil && sec > 0 && sec <= 600 {
+					tmo = time.Duration(sec) * time.Second
+				}
+			}
+		}
+		cmd := exec.Command("sh", "-c", fmt.Sprintf("ulimit -v %d; exec \"$0\" c01.deep1", deepCapKB), os.Args[0])
+		if td, err := ioutil.TempDir("", "lhdeepp"); err == nil {
+			defer os.RemoveAll(td)
+			cmd.Env = append(os.Environ(), "TMPDIR="+td)
+		}
+		cmd.Stdin = strings.NewReader(line + "\n")
+		var so, se bytes.Buffer
+		cmd.Stdout = &so
+		cmd.Stderr = &se
+		if err := cmd.Start(); err != nil {
+			return "SPAWNERR"
+		}
+		done := make(chan error, 1)
+		go func() { done <- cmd.Wait() }()
+		select {
+		case <-time.After(tmo):
+			cmd.Process.Kill()
+			<-done
+			return "TIMEOUT"
+		case err := <-done:
+			outS := strings.TrimRight(so.String(), "\n")
+			if err != nil || outS == "" {
+				e := se.String()
+				switch {
+				case strings.Contains(e, "stack overflow") || strings.Contains(e, "goroutine stack exceeds"):
+					return "CRASH stack-overflow"
+				case strings.Contains(e, "out of memory") || strings.Contains(e, "cannot allocate"):
+					return "CRASH oom"
+				case strings.Contains(e, "concurrent map"):
+					return "CRASH concurrent-map"
+				case strings.Contains(e, "panic:"):
+					i := strings.Index(e, "panic:")
+					m := e[i+6:]
+					if j := strings.Index(m, "\n"); j >= 0 {
+						m = m[:j]
+					}
+					return "CRASH panic " + strings.ReplaceAll(strings.TrimSpace(m), " ", "_")
+				case strings.Contains(e, "fatal error"):
+					return "CRASH fatal"
+				}
+				return fmt.Sprintf("CRASH exit(%v)", err)
+			}
+			return outS
+		}
+	})
 }
